@@ -128,6 +128,10 @@ func collectReaderFacts(c *Ctx) *readerFacts {
 		if isSigPair(b.X, b.Y) {
 			rf.sigIf, rf.sigOKIdx = iff, 1-neIdx
 		}
+		// constant-time form: subtle.ConstantTimeCompare(gen[:], carried[:]) != 1
+		if k, isK := constInt(b.Y); isK && k == 1 && isSigCompareCall(b.X) {
+			rf.sigIf, rf.sigOKIdx = iff, 1-neIdx
+		}
 		if strings.HasSuffix(ex(x), ".Signature") && isNilConst(y) {
 			rf.sigNilIf, rf.sigHereIdx = iff, neIdx
 		}
@@ -159,6 +163,21 @@ func isChecksumPair(x, y ssa.Value, rf *readerFacts) bool {
 	return (isGenChecksum(x, rf) && isGetChecksum(y, rf)) || (isGenChecksum(y, rf) && isGetChecksum(x, rf))
 }
 
+// sigGenerated / sigCarried: pointers to the signature computed with the incoming key / carried by the frame.
+func sigGenerated(v ssa.Value) bool {
+	c, ok := v.(*ssa.Call)
+	return ok && calleeName(&c.Call) == "(frame.V2Frame).GenerateSignature" && ex(c.Call.Args[1]) == "recv.InKey"
+}
+
+func sigCarried(v ssa.Value) bool {
+	u, ok := v.(*ssa.UnOp)
+	if !ok {
+		return false
+	}
+	f, _ := fieldOfAddr(u.X)
+	return f != nil && f.Name() == "Signature"
+}
+
 func isSigPair(x, y ssa.Value) bool {
 	lx, ok1 := x.(*ssa.UnOp)
 	ly, ok2 := y.(*ssa.UnOp)
@@ -169,19 +188,32 @@ func isSigPair(x, y ssa.Value) bool {
 	if !ok || arr.Len() != 6 {
 		return false
 	}
-	gen := func(v ssa.Value) bool {
-		c, ok := v.(*ssa.Call)
-		return ok && calleeName(&c.Call) == "(frame.V2Frame).GenerateSignature" && ex(c.Call.Args[1]) == "recv.InKey"
+	return (sigGenerated(lx.X) && sigCarried(ly.X)) || (sigGenerated(ly.X) && sigCarried(lx.X))
+}
+
+// isSigCompareCall: subtle.ConstantTimeCompare(generated[:], carried[:]) over the whole 6-byte arrays.
+func isSigCompareCall(v ssa.Value) bool {
+	c, ok := v.(*ssa.Call)
+	if !ok || calleeName(&c.Call) != "subtle.ConstantTimeCompare" || len(c.Call.Args) != 2 {
+		return false
 	}
-	own := func(v ssa.Value) bool {
-		u, ok := v.(*ssa.UnOp)
-		if !ok {
-			return false
+	whole := func(a ssa.Value) ssa.Value {
+		sl, ok := a.(*ssa.Slice)
+		if !ok || sl.Low != nil || sl.High != nil {
+			return nil
 		}
-		f, _ := fieldOfAddr(u.X)
-		return f != nil && f.Name() == "Signature"
+		if pt, ok := sl.X.Type().Underlying().(*types.Pointer); ok {
+			if arr, ok := pt.Elem().Underlying().(*types.Array); ok && arr.Len() == 6 {
+				return sl.X
+			}
+		}
+		return nil
 	}
-	return (gen(lx.X) && own(ly.X)) || (gen(ly.X) && own(lx.X))
+	a, b := whole(c.Call.Args[0]), whole(c.Call.Args[1])
+	if a == nil || b == nil {
+		return false
+	}
+	return (sigGenerated(a) && sigCarried(b)) || (sigGenerated(b) && sigCarried(a))
 }
 
 func runC02(c *Ctx) {
